@@ -7,7 +7,8 @@ oracles, onerror that may raise), ALL environments (callables invoked while a re
 a `_log` that may raise).  Model: Catch/Model.lean over Py/Generators.lean; constants and shapes:
 Generated/Catch.lean (regenerated from loguru/_logger.py on every run).
 -/
-import LoguruModel.Catch.Bisim
+import LoguruModel.Catch.Flag
+import LoguruModel.Catch.Threads
 
 namespace C16
 open Catch Py.Gen
@@ -175,21 +176,7 @@ theorem no_recursive_catch (env : Env) (n : Nat) (cfg : Cfg) (d : Nat) (e : Opti
     is handed a clear flag, leaves it alone -/
 theorem guard_flag_reset_on_every_path (env : Env) (cfg : Cfg) (d : Nat) (e : Option Exc) (g : G)
     (honerr : ∀ f, cfg.onerror = some f → ∀ x g', (f x g').2.flag = g'.flag) :
-    (exit env cfg d e g).2.flag = g.flag := by
-  cases e with
-  | none => rw [exit_none]
-  | some x =>
-    rcases caught_or_uncaught cfg g x with h | h
-    · rw [exit_caught env cfg d x g h, h.1]
-      unfold caughtResult
-      split
-      · rfl
-      · split
-        · rfl
-        · rename_i f hfo
-          have hk := honerr f hfo x ((afterLog env cfg d x g).push (.onerror x))
-          split <;> rename_i heq <;> rw [heq] at hk <;> exact hk
-    · rw [exit_uncaught env cfg d x g h]
+    (exit env cfg d e g).2.flag = g.flag := exit_flag env cfg d e g honerr
 
 /-! ## plain functions and `with` / `async with` blocks (`runWith`; `callWrapped`, `withBlock` and `asyncWithBlock` are instances) -/
 
@@ -648,6 +635,239 @@ theorem matching_escape_asyncgen_statement_false : ¬ matching_escape_asyncgen_s
     ⟨rfl, rfl, rfl⟩ ⟨1, ⟨7, 200⟩, 1, rfl, Or.inl rfl, rfl, by decide⟩
   exact this (by decide)
 
+
+/-! ## round 5 – stacked decorators (any number), the guard flag across tasks and threads -/
+
+/-- Tie G (regenerated `Gen.branches`: per branch of `Catcher.__call__` the test as a disjunction of
+    `is<kind>function(function)` / `getattr(function, <marker>, False)`, the syntactic kind of the
+    `catch_wrapper` defined there, whether the branch marks its wrapper; `Gen.wrapperCopiesDict`:
+    `functools.update_wrapper` carries the marker outwards).  Decorating preserves the PROTOCOL: a
+    coroutine function gives a coroutine function, a generator function a generator function, a plain
+    function a plain function, and an async generator function – or the marked wrapper of one – a marked
+    plain function, which the next decorator again sends to the async-generator branch. -/
+theorem wrapper_kind_preserved (f : FnObj) (hv : f.marked = true → f.kind = .plain) :
+    (decorated f).map proto = some (proto f) := by
+  obtain ⟨k, m⟩ := f
+  cases k <;> cases m <;> first | decide | exact absurd (hv rfl) (by decide)
+
+/-- the marker is only ever found on plain functions (what the hypothesis of `wrapper_kind_preserved`
+    asks) – decorating maintains that -/
+theorem decorated_marker_only_on_plain (f f' : FnObj) (hv : f.marked = true → f.kind = .plain)
+    (h : decorated f = some f') : f'.marked = true → f'.kind = .plain := by
+  obtain ⟨k, m⟩ := f
+  cases k <;> cases m <;> first
+    | (have := hv rfl; contradiction)
+    | (cases h; decide)
+
+/-- the branch taken is the branch modelled: the first branch whose test holds of a function of kind `k`
+    (for async generators: also of the marked wrapper of one) has, inside `with catcher:`, the construct
+    the model of that kind mirrors -/
+theorem dispatch_selects_modelled_shape :
+    ((Gen.shapes.zip Gen.branches).find? (fun p => branchTaken ⟨.coroutine, false⟩ p.2)).map (·.1.inner) = some .awaitCall ∧
+    ((Gen.shapes.zip Gen.branches).find? (fun p => branchTaken ⟨.generator, false⟩ p.2)).map (·.1.inner) = some .yieldFromCall ∧
+    ((Gen.shapes.zip Gen.branches).find? (fun p => branchTaken ⟨.asyncgen, false⟩ p.2)).map (·.1.inner) = some .asendTry ∧
+    ((Gen.shapes.zip Gen.branches).find? (fun p => branchTaken ⟨.plain, true⟩ p.2)).map (·.1.inner) = some .asendTry ∧
+    ((Gen.shapes.zip Gen.branches).find? (fun p => branchTaken ⟨.plain, false⟩ p.2)).map (·.1.inner) = some .plainCall ∧
+    Gen.shapes.length = Gen.branches.length := by
+  decide
+
+/-- any number of decorators: the protocol never changes, so EVERY decorator of a stack takes the branch
+    of the first (`towerAuto` / `agTower` are what a stack builds) -/
+theorem stacked_kind_stable (n : Nat) (f : FnObj) (hv : f.marked = true → f.kind = .plain) :
+    ∃ f', stacked n f = some f' ∧ proto f' = proto f ∧ (f'.marked = true → f'.kind = .plain) := by
+  induction n with
+  | zero => exact ⟨f, rfl, rfl, hv⟩
+  | succ n ih =>
+    obtain ⟨f1, h1, hp1, hv1⟩ := ih
+    have hk := wrapper_kind_preserved f1 hv1
+    cases hd : decorated f1 with
+    | none => rw [hd] at hk; cases hk
+    | some f2 =>
+      rw [hd] at hk
+      refine ⟨f2, ?_, ?_, decorated_marker_only_on_plain f1 f2 hv1 hd⟩
+      · simp [stacked, h1, hd]
+      · have : proto f2 = proto f1 := by simpa using hk
+        rw [this, hp1]
+
+/-- refutation of the shape before repo commit 2c59ddf (genuine defect found in round 5, key
+    `C16-stacked-asyncgen-outer-decorator-inert`, since repaired): without the marker the wrapper of an
+    async generator function is a plain function like any other – the next decorator took the plain branch,
+    which guards only the CREATION of the object, never its iteration -/
+theorem unmarked_asyncgen_wrapper_loses_kind :
+    (decoratedWith branchesBefore2c59ddf ⟨.asyncgen, false⟩).map proto = some .plain ∧
+    ((decoratedWith branchesBefore2c59ddf ⟨.asyncgen, false⟩).bind (decoratedWith branchesBefore2c59ddf)).map proto
+      = some .plain ∧
+    ((decorated ⟨.asyncgen, false⟩).bind decorated).map proto = some .asyncgen := by
+  decide
+
+/-- STACKED DECORATORS, ANY NUMBER (`nested_generators_outer_transparent` was the case of two): for every
+    body automaton, every LIST of configurations, every state and driver sequence – as long as every
+    exception that arises is one NONE of the catchers handles (nothing raised at all included), and
+    within the three driver restrictions of `transparent_while_uncaught` – the n-fold decorated generator
+    / coroutine yields, returns and raises exactly what the undecorated one does, stays in the
+    corresponding state, and no catcher of the stack logs or calls onerror.  By induction over the list:
+    a quiet wrapper is itself a quiet body for the next decorator (`quiet_lift_run`). -/
+theorem stacked_transparent_while_uncaught {σ : Type} (k : Kind) (env : Env) (a : Auto G σ) (cfgs : List Cfg)
+    (ops : List Op) (st : GState σ) (g : G)
+    (h : quietRun k a (fun g e => ∀ c ∈ cfgs, Uncaught c g e) (fun g e => ∀ c ∈ cfgs, Uncaught c g e) st ops g) :
+    run (towerObj k env a cfgs) (embN cfgs st) ops g =
+      ((run (genObj k a) st ops g).1, embN cfgs (run (genObj k a) st ops g).2.1, (run (genObj k a) st ops g).2.2) :=
+  (tower_run_quiet k env a cfgs (fun c hc _ _ hp => hp c hc) (fun c hc _ _ hq => hq c hc) ops st g h).2
+
+/-- … in particular once the INNERMOST catcher `c` has dealt with an exception (or whenever it lets
+    through only what the outer ones do not handle), any number of outer decorators add nothing: the stack
+    `outer ++ [c]` behaves as the singly decorated object (the theorem above with the inner wrapper as body) -/
+theorem stacked_outer_transparent_over_inner {σ : Type} (k : Kind) (env : Env) (a : Auto G σ) (c : Cfg)
+    (outer : List Cfg) (ops : List Op) (st : GState (WState (GState σ))) (g : G)
+    (h : quietRun k (wrapAuto (exit env) c (genObj k a)) (fun g e => ∀ c' ∈ outer, Uncaught c' g e)
+      (fun g e => ∀ c' ∈ outer, Uncaught c' g e) st ops g) :
+    (run (towerObj k env (wrapAuto (exit env) c (genObj k a)) outer) (embN outer st) ops g).1 =
+      (run (wrappedGen k (exit env) c a) st ops g).1 ∧
+    (run (towerObj k env (wrapAuto (exit env) c (genObj k a)) outer) (embN outer st) ops g).2.2 =
+      (run (wrappedGen k (exit env) c a) st ops g).2.2 := by
+  have := stacked_transparent_while_uncaught k env (wrapAuto (exit env) c (genObj k a)) outer ops st g h
+  rw [this]
+  exact ⟨rfl, rfl⟩
+
+/-- the outer configuration of the finding below: handles only class 8 (ValueError), level 30, default 3 -/
+def cfgOuter8 : Cfg :=
+  { isMatch := fun e => e.cls == 8, excluded := fun _ => false, reraise := false, level := 30, default := 3,
+    onerror := none }
+/-- the inner one: handles only class 7 (KeyError) -/
+def cfgInner7 : Cfg := { cfgDefault with isMatch := fun e => e.cls == 7 }
+
+/-- `yield 1`, then `raise ⟨8,101⟩` -/
+def bodyRaise8 : Auto G Nat where
+  step s _ g := match s with
+    | 0 => (.yield 1, 1, g)
+    | _ => (.raise ⟨8, 101⟩, 1, g)
+
+/-- STACKED DECORATORS ON AN ASYNC GENERATOR FUNCTION, ANY NUMBER: for every body, every list of
+    configurations, every state and every sequence of `asend/athrow/aclose` in which no exception that ANY
+    catcher of the stack handles arises on an `asend` – same results, same states, same world -/
+theorem stacked_transparent_asyncgen {σ : Type} (env : Env) (a : Auto G σ) (cfgs : List Cfg) (ops : List AOp)
+    (st : AState σ) (g : G) (h : quietAStackRun cfgs (agenStep a) st ops g) :
+    arun (agTower env (agenStep a) cfgs) st ops g = arun (agenStep a) st ops g :=
+  agTower_run_quiet env (agenStep a) cfgs ops st g h
+
+/-- … and `matching_escape_logged_once` through the stack: an exception the body raises on an `asend`
+    that the inner decorators `below` do not handle and the decorator `c` above them does is logged ONCE,
+    by `c` (its level, its onerror), and ends the iteration or is re-raised as `c` says -/
+theorem stacked_asyncgen_outer_catches {σ : Type} (env : Env) (a : Auto G σ) (c : Cfg) (below : List Cfg)
+    (st st' : AState σ) (v : Val) (g g' : G) (e : Exc)
+    (hr : agenStep a st (.asend v) g = (.raise e, st', g')) (hb : ∀ c' ∈ below, Uncaught c' g' e) (hc : Caught c g' e) :
+    agTower env (agenStep a) (c :: below) st (.asend v) g =
+      match caughtResult env c decoratorDepth e g' with
+      | (.suppress, g2) => (.stopAsync, st', g2)
+      | (.propagate, g2) => (.raise e, st', g2)
+      | (.raise x, g2) => (.raise x, st', g2) :=
+  agTower_outer_catches env (agenStep a) c below st st' v g g' e hr hb hc
+
+/-- REGRESSION of the repaired defect (found in round 5, fixed by 2c59ddf): `@catch(ValueError, level=30)
+    @catch(KeyError)` around `yield 1; raise ValueError` – on the async generator exactly as on the sync
+    generator the outer catcher logs one record at level 30 and the iteration ends
+    (before the fix the async generator handed ⟨8,101⟩ to the driver with no record) -/
+theorem stacked_asyncgen_outer_catches_witness :
+    (arun (agTower env0 (agenStep bodyRaise8) [cfgOuter8, cfgInner7]) (.unstarted 0) [.asend 0, .asend 0] g0).1
+      = [.yield 1, .stopAsync] ∧
+    (arun (agTower env0 (agenStep bodyRaise8) [cfgOuter8, cfgInner7]) (.unstarted 0) [.asend 0, .asend 0] g0).2.2.trace
+      = [.log 30 ⟨8, 101⟩ 1] ∧
+    (arun (agenW env0 cfgInner7 bodyRaise8) (.unstarted 0) [.asend 0, .asend 0] g0).1
+      = [.yield 1, .raise ⟨8, 101⟩] ∧
+    (run (towerObj .generator env0 bodyRaise8 [cfgOuter8, cfgInner7]) (embN [cfgOuter8, cfgInner7] (.unstarted 0))
+        [.send 0, .send 0] g0).1 = [.yield 1, .stop 3] ∧
+    (run (towerObj .generator env0 bodyRaise8 [cfgOuter8, cfgInner7]) (embN [cfgOuter8, cfgInner7] (.unstarted 0))
+        [.send 0, .send 0] g0).2.2.trace = [.log 30 ⟨8, 101⟩ 1] := by
+  decide
+
+/-- THE GUARD ACROSS TASKS.  The flag is set only while the synchronous `_log` runs: for every body that
+    leaves the flag alone, every stack of decorators (onerror callbacks leaving it alone), every wrapper
+    state and every driver sequence, whenever the decorated generator / coroutine hands control back to
+    its driver – the event loop, free to resume any other task of the thread – the thread's flag is what
+    it was.  No task ever runs under another task's guard. -/
+theorem flag_clear_at_every_suspension {σ : Type} (k : Kind) (env : Env) (a : Auto G σ) (cfgs : List Cfg)
+    (ha : AutoKeepsFlag a) (ho : ∀ c ∈ cfgs, OnerrorKeepsFlag c)
+    (ops : List Op) (st : GState (TState σ cfgs)) (g : G) :
+    (run (towerObj k env a cfgs) st ops g).2.2.flag = g.flag :=
+  run_keeps_flag _ (genObj_keeps_flag k _ (tower_keeps_flag k env a ha cfgs ho)) ops st g
+
+/-- Tie G: the guard flag is an attribute of `logger._core.thread_locals`, and `Core` always makes that a
+    `threading.local()` (regenerated `Gen.flagStore`; the storage is READ from the expression `__exit__`
+    uses, so a flag moved onto the Core / Logger / Catcher is followed by the model and refuted here) -/
+theorem guard_flag_is_thread_local : Gen.flagStore = .threadLocal := by decide
+
+/-- THE GUARD ACROSS THREADS, non-interference: with the storage the code uses, under EVERY schedule of
+    any number of threads, what a thread sees of its own `__exit__` (program counter, flag, records and
+    onerror calls) is what it would see running alone for as many steps as the schedule gives it -/
+theorem threads_do_not_interfere (m : Nat) (lr : Exc → Option Exc) (t : Tid) (sched : List Tid) (w : TWorld) :
+    view Gen.flagStore (grun Gen.flagStore m lr sched w) t =
+      seqRun m lr (sched.count t) (view Gen.flagStore w t) := by
+  rw [guard_flag_is_thread_local]
+  exact view_grun_threadLocal m lr t sched w
+
+/-- … hence `matching_escape_logged_once` per thread under every schedule: a thread whose catcher
+    handles its exception and that gets its five steps – wherever other threads stand, INSIDE `_log`
+    included – logs exactly one record (if a handler accepts the level), calls onerror once, ends with
+    the configured result and a clear flag -/
+theorem each_thread_logs_once_under_every_schedule (m : Nat) (lr : Exc → Option Exc) (t : Tid) (sched : List Tid)
+    (w : TWorld) (a : Activation) (hact : w.acts t = some a) (hpc : a.pc = .tests)
+    (hflag : w.flags (slot Gen.flagStore t) = false)
+    (hm : a.cfg.isMatch a.exc = true) (hx : a.cfg.excluded a.exc = false) (hn : 5 ≤ sched.count t) :
+    view Gen.flagStore (grun Gen.flagStore m lr sched w) t =
+      { act := some { a with pc := .done (handledResult m lr a) }, flag := false,
+        events := (view Gen.flagStore w t).events ++ handledEvents m lr a } := by
+  rw [threads_do_not_interfere]
+  obtain ⟨n, hn'⟩ := Nat.exists_eq_add_of_le hn
+  rw [hn', seqRun_add]
+  have hv : view Gen.flagStore w t =
+      { act := some a, flag := false, events := (view Gen.flagStore w t).events } := by
+    simp [view, hact, hflag]
+  rw [hv, seqRun_handled m lr a _ hpc hm hx]
+  exact seqRun_done m lr n _ { a with pc := .done (handledResult m lr a) } _ rfl rfl
+
+/-- … and `non_matching_propagates_unlogged` per thread: other type / excluded type / the thread's OWN
+    flag set – propagates after one step, nothing logged, under every schedule -/
+theorem each_thread_unhandled_propagates_under_every_schedule (m : Nat) (lr : Exc → Option Exc) (t : Tid)
+    (sched : List Tid) (w : TWorld) (a : Activation) (hact : w.acts t = some a) (hpc : a.pc = .tests)
+    (h : w.flags (slot Gen.flagStore t) = true ∨ a.cfg.isMatch a.exc = false ∨ a.cfg.excluded a.exc = true)
+    (hn : 1 ≤ sched.count t) :
+    view Gen.flagStore (grun Gen.flagStore m lr sched w) t =
+      { act := some { a with pc := .done .propagate }, flag := w.flags (slot Gen.flagStore t),
+        events := (view Gen.flagStore w t).events } := by
+  rw [threads_do_not_interfere]
+  obtain ⟨n, hn'⟩ := Nat.exists_eq_add_of_le hn
+  rw [hn', seqRun_add]
+  have hv : view Gen.flagStore w t =
+      { act := some a, flag := w.flags (slot Gen.flagStore t), events := (view Gen.flagStore w t).events } := by
+    simp [view, hact]
+  rw [hv, seqRun_unhandled m lr a _ _ hpc h]
+  exact seqRun_done m lr n _ { a with pc := .done .propagate } _ rfl rfl
+
+def tcfgDefault : TCfg :=
+  { isMatch := fun e => e.cls ≥ 3, excluded := fun _ => false, reraise := false, level := 40, onerror := some none }
+
+/-- two threads, each in `__exit__` for a handled exception of its own -/
+def twoThreads : TWorld :=
+  { flags := fun _ => false,
+    acts := fun t => if t = 0 then some ⟨tcfgDefault, ⟨8, 101⟩, 1, .tests⟩
+                     else if t = 1 then some ⟨tcfgDefault, ⟨7, 102⟩, 1, .tests⟩ else none,
+    trace := [] }
+
+/-- why the storage matters (refuting witness for a flag shared by all threads, replayed on the code by
+    the thread stream of the harness): thread 0 enters `_log`; thread 1's `__exit__` then finds the flag
+    set and lets ITS handled exception propagate unlogged – whereas with the thread-local flag the same
+    schedule gives each thread its record and its onerror call -/
+theorem shared_flag_loses_record_witness :
+    ((grun .shared 0 (fun _ => none) [0, 0, 1, 0, 0, 0, 1, 1, 1, 1] twoThreads).acts 1).map (·.pc)
+      = some (.done .propagate) ∧
+    (grun .shared 0 (fun _ => none) [0, 0, 1, 0, 0, 0, 1, 1, 1, 1] twoThreads).trace
+      = [(0, .log 40 ⟨8, 101⟩ 1), (0, .onerror ⟨8, 101⟩)] ∧
+    ((grun .threadLocal 0 (fun _ => none) [0, 0, 1, 0, 0, 0, 1, 1, 1, 1] twoThreads).acts 1).map (·.pc)
+      = some (.done .suppress) ∧
+    (grun .threadLocal 0 (fun _ => none) [0, 0, 1, 0, 0, 0, 1, 1, 1, 1] twoThreads).trace
+      = [(0, .log 40 ⟨8, 101⟩ 1), (0, .onerror ⟨8, 101⟩), (1, .log 40 ⟨7, 102⟩ 1), (1, .onerror ⟨7, 102⟩)] := by
+  decide
+
 /-! ## non-vacuity -/
 
 example : quietRun .generator (bodyW (.raise genExit)) (fun _ _ => False) (Uncaught cfgDefault)
@@ -663,5 +883,31 @@ example : Caught cfgDefault g0 ⟨8, 101⟩ := ⟨rfl, rfl, rfl⟩
 
 example : quietARun cfgDefault (bodyW (.ret 0)) (.unstarted 0) [.asend 0, .asend 3, .aclose] g0 := by
   simp [quietARun, quietA, agenStep, asettle, bodyW, genExit, Exc.isGenExit, clsGeneratorExit]
+
+example : quietRun .generator (bodyW (.raise genExit)) (fun g e => ∀ c ∈ [cfgDefault, cfgOuter8, cfgDefault], Uncaught c g e)
+    (fun g e => ∀ c ∈ [cfgDefault, cfgOuter8, cfgDefault], Uncaught c g e) (.unstarted 0) [.send 0, .send 5, .close] g0 := by
+  simp [quietRun, quietStep, genObj, genStep, settle, bodyW, raisesOk, genExit, Exc.isGenExit, clsGeneratorExit,
+    Uncaught, cfgDefault, cfgOuter8]
+
+example : quietAStackRun [cfgDefault, cfgInner7] (agenStep (bodyW (.ret 0))) (.unstarted 0) [.asend 0, .asend 3, .aclose] g0 := by
+  simp [quietAStackRun, quietAStack, agenStep, asettle, bodyW]
+
+example : Caught cfgOuter8 g0 ⟨8, 101⟩ ∧ (∀ c' ∈ [cfgInner7], Uncaught c' g0 ⟨8, 101⟩) := by
+  refine ⟨⟨rfl, rfl, rfl⟩, ?_⟩
+  intro c' hc'
+  simp only [List.mem_singleton] at hc'
+  subst hc'
+  exact Or.inr (Or.inl rfl)
+
+example : AutoKeepsFlag (bodyW (.ret 0)) := by
+  intro s i g
+  simp only [bodyW]
+  split <;> try rfl
+  split <;> rfl
+
+example : twoThreads.acts 1 = some ⟨tcfgDefault, ⟨7, 102⟩, 1, .tests⟩ ∧
+    twoThreads.flags (slot Gen.flagStore 1) = false ∧ tcfgDefault.isMatch ⟨7, 102⟩ = true ∧
+    5 ≤ List.count 1 [0, 0, 1, 0, 0, 0, 1, 1, 1, 1] := by
+  refine ⟨rfl, rfl, rfl, by decide⟩
 
 end C16
